@@ -1,8 +1,8 @@
 /-
   Pinned copies of the source tables the Model was written against (classes' attr.ib
-  validators, ms parser and option records, CLI flags).  Produced once from
-  Generated/*.lean by hand (never at check time); `Theorems/Tables*.lean` prove the freshly
-  regenerated tables equal to these.
+  validators, ms parser and option records, CLI flags).  Produced from Generated/*.lean by
+  harness/pin_tables.py, by hand (never at check time); `Theorems/Tables*.lean` prove the
+  freshly regenerated tables equal to these.
 -/
 namespace Demes.Pinned
 
@@ -98,6 +98,6 @@ def cliParseFlags : List (String × String × String × String) := [
   ("--ms", "-", "float", "None"),
   ("-s --simplified", "'store_true'", "-", "False"),
   ("filename", "-", "argparse.FileType()", "-")]
-def cliParseTests : List String := ["args.json", "args.ms", "args.ms and args.simplified", "num_documents == 0", "num_documents == 1", "args.ms is not None", "output_format != 'yaml'"]
+def cliParseTests : List String := ["args.json", "args.ms is not None", "args.ms and args.simplified", "num_documents == 0", "num_documents == 1", "args.ms is not None", "output_format != 'yaml'"]
 
 end Demes.Pinned
